@@ -509,6 +509,14 @@ acquire_start(struct AcquireRuntime* self_)
 {
     struct runtime* self = containerof(self_, struct runtime, handle);
 
+    if (acquire_get_state(self_) == DeviceState_Running) {
+        // Leave the running acquisition alone: starting over its live
+        // worker threads would orphan them, and the error path below stops
+        // the cameras under them.
+        LOGE("Cannot start: an acquisition is already running.");
+        return AcquireStatus_Error;
+    }
+
     EXPECT(self->valid_video_streams > 0,
            "At least one video stream must be marked valid");
 
